@@ -106,12 +106,30 @@ def opLayout (j : Json) : Except String Json := do
         | none => Json.mkObj [("err", "raise")])
   return Json.mkObj [("calls", Json.arr outs)]
 
+def ruleName : Rule → String
+  | .emptyStruct => "emptyStruct" | .dupField => "dupField" | .dupEnumName => "dupEnumName"
+  | .dupEnumValue => "dupEnumValue" | .dupImpl => "dupImpl" | .implNoStruct => "implNoStruct"
+  | .dupCanId => "dupCanId" | .implTooBig => "implTooBig" | .dupType => "dupType"
+  | .missingService => "missingService"
+
+def opVerify (j : Json) : Except String Json := do
+  let S ← J.schema (← j.getObjVal? "schema")
+  let cs ← match (← j.getObjValAs? String "set") with
+    | "general" => pure CheckSet.general
+    | "dbc" => pure CheckSet.dbc
+    | "can_c" => pure CheckSet.canC
+    | s => throw s!"bad check set {s}"
+  match verifyModel cs (getFuel j) S with
+  | .ok () => return Json.mkObj [("ok", true)]
+  | .error r => return Json.mkObj [("ok", false), ("rule", ruleName r)]
+
 def dispatch (j : Json) : Except String Json := do
   let op ← j.getObjValAs? String "op"
   match op with
   | "codec" => opCodec j
   | "buf" => opBuf j
   | "layout" => opLayout j
+  | "verify" => opVerify j
   | _ => throw s!"unknown op {op}"
 
 partial def loop (hin : IO.FS.Stream) (hout : IO.FS.Stream) : IO Unit := do
